@@ -177,13 +177,33 @@ def shareIndices (modulus count : Nat) : Nat → Nat → List Nat → Option (Li
 /-- more than enough iterations for every `share_count ≤ 255` when the loop does exit. -/
 def splitFuel : Nat := 1024
 
-/-- coefficients drawn for secret byte `b`: `threshold - 1` consecutive draws, each cast to a byte. -/
-def coeffsFor (rd : Nat → Nat) (t b : Nat) : List Nat :=
-  (List.range (t - 1)).map fun d => rd (b * (t - 1) + d) % 256
+/-! The random draws.  `std::random_device` is the stream `rd` (`rd k` = the k-th draw made by this call of `split`).
+Which draw becomes which coefficient is the *consumption pattern* of the code: with the draw call inside the
+per-byte loop (`perByte = true`, what `Generated/C10.lean` reports for the source) byte `b` uses the fresh draws
+`b·(t-1), …, b·(t-1)+t-2`; with the call hoisted out of the loop (`perByte = false`) every byte re-uses the draws
+`0, …, t-2`.  Both patterns reconstruct; only the first one hides the secret (`Proofs/C10.lean`: `secrecy_joint`,
+`shared_draws_leak`). -/
 
-def mkShare (rd : Nat → Nat) (secret : List Nat) (t : Nat) (x : Nat) : Share :=
+/-- number of the draw that becomes the coefficient of `X^(d+1)` of secret byte `b` -/
+def drawIndex (perByte : Bool) (t b d : Nat) : Nat :=
+  if perByte then b * (t - kDegreeStart) + d else d
+
+/-- how many draws one `split` of `bytes` secret bytes consumes -/
+def drawsConsumed (perByte : Bool) (bytes t : Nat) : Nat :=
+  if perByte then bytes * (t - kDegreeStart) else t - kDegreeStart
+
+/-- coefficients used for secret byte `b`: `threshold - 1` draws, each cast to a byte. -/
+def coeffsForP (perByte : Bool) (rd : Nat → Nat) (t b : Nat) : List Nat :=
+  (List.range (t - kDegreeStart)).map fun d => rd (drawIndex perByte t b d) % 256
+
+def mkShareP (perByte : Bool) (rd : Nat → Nat) (secret : List Nat) (t : Nat) (x : Nat) : Share :=
   { index := x % 256
-    value := secret.zipIdx.map fun (s, b) => evalPoly (x % 256) s (coeffsFor rd t b) }
+    value := secret.zipIdx.map fun (s, b) => evalPoly (x % 256) s (coeffsForP perByte rd t b) }
+
+/-- the source's pattern -/
+def coeffsFor (rd : Nat → Nat) (t b : Nat) : List Nat := coeffsForP kDrawPerByte rd t b
+
+def mkShare (rd : Nat → Nat) (secret : List Nat) (t : Nat) (x : Nat) : Share := mkShareP kDrawPerByte rd secret t x
 
 def split (rd : Nat → Nat) (secret : List Nat) (t n : Nat) : Outcome (List Share) :=
   if t = 0 ∨ n = 0 then .invalidArgument
